@@ -78,31 +78,25 @@ Theorem C11_to_string_value : forall n,
 Proof. exact to_string_value. Qed.
 Print Assumptions C11_to_string_value.
 
-(* whipe_comments on text without CR: same bytes or blanks, LFs untouched, final LF dropped; hence
-   the parser's line table is that of the original (minus the final LF). *)
-Theorem C11_whipe_preserves_offsets_lf : forall src,
-  ~ In CR src -> Forall2 blank_rel (chomp src) (whipe_comments src).
-Proof. exact whipe_preserves_offsets_lf. Qed.
-Print Assumptions C11_whipe_preserves_offsets_lf.
+(* whipe_comments (as repaired in /repo 85b4372), for EVERY text: the wiped text has the length of the
+   original and is pointwise the same byte or a blank replacing a byte other than LF ... *)
+Theorem C11_whipe_preserves_offsets : forall src,
+  List.length (whipe_comments src) = List.length src /\ Forall2 blank_rel src (whipe_comments src).
+Proof. exact (fun src => conj (whipe_length src) (whipe_preserves_offsets src)). Qed.
+Print Assumptions C11_whipe_preserves_offsets.
 
-Theorem C11_whipe_line_table_lf : forall src,
-  ~ In CR src -> line_locations (whipe_comments src) = line_locations (chomp src).
-Proof. exact whipe_line_table_lf. Qed.
-Print Assumptions C11_whipe_line_table_lf.
+(* ... "a byte that is neither LF nor CR" would be false: a lone CR inside a comment is content (it
+   does not end a line) and is blanked like every other comment byte. *)
+Theorem C11_whipe_blanks_only_non_cr_refuted :
+  exists src, ~ Forall2 blank_rel_strict src (whipe_comments src).
+Proof. exact whipe_blanks_only_non_cr_refuted. Qed.
+Print Assumptions C11_whipe_blanks_only_non_cr_refuted.
 
-(* With CRLF every line loses one byte in the wiped text: offsets of the wiped text (these are the
-   locations of all diagnostics) are k bytes too small for the original text after k CRLF lines. *)
-Theorem C11_whipe_crlf_line : forall a rest,
-  ~ In LF a -> find_comment a = None -> rest <> [] ->
-  whipe_comments (a ++ CR :: LF :: rest) = a ++ LF :: whipe_comments rest.
-Proof. exact whipe_crlf_line. Qed.
-Print Assumptions C11_whipe_crlf_line.
-
-Theorem C11_whipe_lf_line : forall a rest,
-  ~ In LF a -> ~ In CR a -> find_comment a = None -> rest <> [] ->
-  whipe_comments (a ++ LF :: rest) = a ++ LF :: whipe_comments rest.
-Proof. exact whipe_lf_line. Qed.
-Print Assumptions C11_whipe_lf_line.
+(* The parser's line table is the line table of the original text (so such a CR is never a line
+   terminator, and blanking it moves nothing). *)
+Theorem C11_whipe_line_table : forall src, line_locations (whipe_comments src) = line_locations src.
+Proof. exact whipe_line_table. Qed.
+Print Assumptions C11_whipe_line_table.
 
 (* ------------------------------------------------------------------------------------------ *)
 (* Examples (non-vacuity) *)
@@ -171,60 +165,74 @@ Proof. vm_compute. split; reflexivity. Qed.
 Definition lf_src : list N := bytes ("type A; // a" ++ nl ++ "pred p(A);" ++ nl).
 
 Example ex_whipe_lf :
-  ~ In CR lf_src /\ whipe_comments lf_src = bytes ("type A;     " ++ nl ++ "pred p(A);").
-Proof.
-  split.
-  - vm_compute. intuition discriminate.
-  - vm_compute. reflexivity.
-Qed.
-
-Example ex_whipe_crlf_line :
-  let a := bytes "type A;" in let rest := bytes "}" in
-  ~ In LF a /\ find_comment a = None /\ rest <> [] /\
-  whipe_comments (a ++ CR :: LF :: rest) = bytes ("type A;" ++ nl ++ "}").
-Proof.
-  cbv zeta. split; [vm_compute; intuition discriminate|].
-  split; [vm_compute; reflexivity|]. split; [discriminate|vm_compute; reflexivity].
-Qed.
-
-(* ------------------------------------------------------------------------------------------ *)
-(* What is false: with CRLF the wiped text does not preserve offsets ... *)
-
-Theorem C11_whipe_preserves_offsets_crlf_refuted :
-  exists src, line_locations (whipe_comments src) <> line_locations (chomp src).
-Proof. exists (bytes ("a" ++ cr ++ nl ++ "b")). vm_compute. discriminate. Qed.
-Print Assumptions C11_whipe_preserves_offsets_crlf_refuted.
-
-(* ... and the renderer is given the ORIGINAL text (build.rs: CompileErrorWithContext.source is the
-   string read from the file) together with locations that index the WIPED text (parse() shadows
-   [source] with [whipe_comments(source)]).  The property below is the position half of C11 for the
-   model pipeline: a byte of the text the parser sees is reported on the line it is on. *)
-Definition C11_position_stmt (src : list N) : Prop :=
-  forall o, o < len (whipe_comments src) ->
-            nth_error (whipe_comments src) (N.to_nat o) <> Some LF ->
-            first_line_number src (o, o + 1) = line_number_of (whipe_comments src) o.
-
-Definition C11_full : Prop := forall src, C11_position_stmt src.
-
-(* "type A;\r\ntype B;\r\n}": the "}" is byte 16 of the wiped text, on line 3; byte 16 of the original
-   is the "\r" of line 2, and line 2 is what is reported. *)
-Definition crlf_witness : list N := bytes ("type A;" ++ cr ++ nl ++ "type B;" ++ cr ++ nl ++ "}").
-
-Theorem C11_full_refuted : ~ C11_full.
-Proof.
-  intros H. specialize (H crlf_witness 16). vm_compute in H.
-  assert (E : 2 = 3) by (apply H; [reflexivity|discriminate]). discriminate E.
-Qed.
-Print Assumptions C11_full_refuted.
-
-Example ex_crlf_witness_render :
-  render crlf_witness (16, 17) (Some (bytes "t.eql")) true
-  = Some (bytes (" --> t.eql:2" ++ nl ++ "  | " ++ nl ++ "2 | type B;" ++ nl ++ "  |        " ++ nl ++ "  | " ++ nl)).
+  whipe_comments lf_src = bytes ("type A;     " ++ nl ++ "pred p(A);" ++ nl).
 Proof. vm_compute. reflexivity. Qed.
 
-(* Not proved: [forall src, ~ In CR src -> C11_position_stmt src] (the position half for LF-only
-   text).  The ingredients are C11_whipe_line_table_lf and C11_render_total; missing is the link
-   between [line_number_of] (counting LFs) and the index into [line_locations], and the comparison
-   of [line_locations (chomp src)] with [line_locations src].  The front end itself (lexer, parser,
-   semantic checks) is not modelled: that it never panics is validated by harness/cli-driver. *)
-Definition C11_position_lf : Prop := forall src, ~ In CR src -> C11_position_stmt src.
+Example ex_whipe_crlf :
+  whipe_comments (bytes ("type A; // a" ++ cr ++ nl ++ "x //" ++ cr))
+  = bytes ("type A;     " ++ cr ++ nl ++ "x   " ++ cr).
+Proof. vm_compute. reflexivity. Qed.
+
+(* hypotheses of C11_rows_complete_lines / C11_excerpt_wf_b_complete *)
+Example ex_rows_wf : rows_wf crlf_src (3, 9) 2 2.
+Proof. apply rows_wf_b_sound. vm_compute. reflexivity. Qed.
+
+(* hypotheses of C11_position_of_byte: the "c" of "cd" in crlf_src is byte 4, on line 2 *)
+Example ex_position_of_byte :
+  nth_error crlf_src (N.to_nat 4) = Some 99 /\ first_line_number crlf_src (4, 5) = 2 /\
+  line_number_of crlf_src 4 = 2.
+Proof. vm_compute. repeat split; reflexivity. Qed.
+
+(* ------------------------------------------------------------------------------------------ *)
+(* The position half of C11 for the model pipeline.  The renderer is given the ORIGINAL text
+   (build.rs: CompileErrorWithContext.source is the string read from the file) together with
+   locations that index the WIPED text (parse() shadows [source] with [whipe_comments(source)]).
+   [position_stmt src] (Model.v): a one-byte location at ANY byte of the text the parser sees -- also the
+   CR or LF of a line terminator, which is where lalrpop puts end-of-file errors -- is reported on the
+   line that byte is on (1 + the number of LFs before it in the wiped text, which by
+   C11_whipe_line_table has the line structure of the original). *)
+Definition C11_full : Prop := forall src, position_stmt src.
+
+Theorem C11_full_proved : C11_full.
+Proof. exact position_full. Qed.
+Print Assumptions C11_full_proved.
+
+(* ... on top of: a one-byte location at any byte of ANY text is reported on the line that byte is on
+   (inside the line: the line is hit; on its terminator: the line is empty and the terminator starts
+   at its offset, so it lies inside the location, or no line is hit -- an empty line right behind the
+   location does not count since 1a1b946 -- and the fallback picks it). *)
+Theorem C11_position_of_byte : forall src o,
+  o < len src -> first_line_number src (o, o + 1) = line_number_of src o.
+Proof. exact position_of_byte. Qed.
+Print Assumptions C11_position_of_byte.
+
+(* "type A;\r\ntype B;\r\n}": the "}" is byte 18 of both texts, line 3 (Regress.v has what the previous
+   whipe_comments made of it) *)
+Definition crlf_witness : list N := bytes ("type A;" ++ cr ++ nl ++ "type B;" ++ cr ++ nl ++ "}").
+
+Example ex_position_crlf :
+  18 < len (whipe_comments crlf_witness) /\
+  first_line_number crlf_witness (18, 19) = 3 /\ line_number_of (whipe_comments crlf_witness) 18 = 3.
+Proof.
+  split; [vm_compute; reflexivity|].
+  vm_compute. split; reflexivity.
+Qed.
+
+(* on the "\r" that ends line 2 (byte 16): still line 2 *)
+Example ex_position_on_cr :
+  nth_error crlf_witness (N.to_nat 16) = Some CR /\ first_line_number crlf_witness (16, 17) = 2 /\
+  line_number_of crlf_witness 16 = 2.
+Proof. vm_compute. repeat split; reflexivity. Qed.
+
+(* "type A\n\n": lalrpop reports end of file at (6,7), the "\n" that ends line 1; the empty line 2
+   touches the end of that location but does not contain it: line 1 is reported (Regress.v: with the
+   closure before 1a1b946 it was line 2, and line 1 for the CRLF twin). *)
+Example ex_eof_before_blank_line :
+  first_line_number (bytes ("type A" ++ nl ++ nl)) (6, 7) = 1 /\
+  first_line_number (bytes ("type A" ++ cr ++ nl ++ cr ++ nl)) (6, 7) = 1 /\
+  line_number_of (bytes ("type A" ++ nl ++ nl)) 6 = 1.
+Proof. vm_compute. repeat split; reflexivity. Qed.
+
+(* Not modelled: the front end itself (lexer, parser, semantic checks).  That it terminates without
+   panicking, and that its locations are locations of the wiped text, is validated by
+   harness/cli-driver (README there), not proved. *)
